@@ -112,6 +112,36 @@ CLAIMS['C08'] = dict(
          'not discharged); FieldDriver, steppers and helix accuracy are outside.',
     technique=TECH_B + ' (real-arithmetic mode)', design='3 (C08)')
 
+CLAIMS['C04'] = dict(
+    text='For two interaction models (Klein-Nishina, e+ annihilation) in exact arithmetic and for every value of every random draw: energy is conserved on every '
+         'accepted path (with 2mc^2 for the annihilated positron), the secondary is emitted only above the model\'s threshold, and an exhausted secondary stack '
+         'gives an explicit failure with nothing emitted; draw count bounded per iteration.',
+    note='Only 2 of the ~15 models are covered; rejection loops followed for 3 iterations; momentum balance, unit directions and energy positivity ranges are not '
+         'decided in the quick tier.',
+    technique=TECH_B + ' (real-arithmetic mode with lemma schemas)', design='3 (C04)')
+
+CLAIMS['C09'] = dict(
+    text='Bounding-zone stage of geometry construction as an inductive step: for arbitrary valid zones consistent with arbitrary regions at an arbitrary probe '
+         'point, calc_intersection / calc_union / negate of zones, the box utilities and get_exterior_bbox keep "known inside" inside and the region inside the '
+         'exterior box (every bound finite or infinite, null boxes, per negation case); SurfaceClipper / NegatedSurfaceClipper create sound leaf boxes (exact '
+         'arithmetic). Found and fixed defect F4 (difference returned the hole as interior); open known findings F5 (mixed-negation union swapped; reaches runtime '
+         'point location) and F6 (sphere interior box too large).',
+    note='Only the bounding-zone mechanism of the property is decided. Surface emission by the primitives, CSG simplification, soft de-duplication, box '
+         'transforms and UnitProto/InputBuilder/OrangeParams assembly (heap containers, variants) are outside the encodable reach; surface translation / '
+         'transformation is under C12.6.',
+    technique=TECH_B + ' (real-arithmetic mode with symbolic extended reals); ' + TECH_A + ' for the two volume-comparing zone cases', design='0.2 (C09)')
+
+CLAIMS['C20'] = dict(
+    text='Exact-arithmetic obligations for every value of every random draw: from_spherical / make_unit_vector / rotate contracts (open known finding F7: '
+         'rotate mirrors the axis within 0.005 rad of +-z for rot_y < 0); CerenkovDndxCalculator is >= 0 and 0 below threshold; CerenkovGenerator returns an energy '
+         'inside the table, a local direction on the cone cos(theta) = 1/(n(E) beta_mean) for the returned energy, a perpendicular polarisation of the same '
+         'azimuth, both rotated about the unit step direction, a position on the step segment and a time >= the pre-step time; ScintillationGenerator returns a '
+         'unit direction, a perpendicular normalised polarisation, a position on the segment and a time >= the pre-step time.',
+    note='Compositional (rotate, make_unit_vector, sincospi, table lookup and dN/dx cut to recorders inside the generator obligations); rejection loops followed '
+         'once (twice thorough); positivity of the scintillation wavelength, the photon-number sampling in the offload helpers and the general rotate identity '
+         '(quick tier) are not decided.',
+    technique=TECH_B + ' (real-arithmetic mode, function cuts on un-optimised IR)', design='0.2 (C20)')
+
 NOT_APPLICABLE = {
     'C07': 'quantifies over interleavings of host threads driving whole Steppers over shared_ptr/std::vector/OpenMP state: no installed engine '
            'models concurrent libstdc++ (CBMC C++ front end cannot parse it; own IR executors are single-threaded). See DESIGN.md C07.',
